@@ -194,3 +194,22 @@ CLAIMED['C19'] = (
 )
 
 NOT_APPLICABLE = {f'C{i:02d}': WIP for i in range(1, 20)}
+
+#: clauses added after the second round of seeded changes (DESIGN.md 7.8), inserted before the "Not decided" sentence
+ADDED = {
+    'C02': 'The whole canonical-order pack applies: every positional sequence of parameters (also the layout of a `betas=` dictionary) follows the sorted names.',
+    'C03': 'Draws of the estimates are labelled with the requested names over the columns of those names.',
+    'C04': 'In a dictionary of formulas the log likelihood and the weight are the entries under their documented spellings (both aliases of each).',
+    'C05': 'The branch without availabilities sums the same term as the branch with them; the records of the logit classes pair each alternative with its own utility and availability.',
+    'C06': 'Each builder sums the same term with and without availabilities (passing availabilities all equal to one does not change the model).',
+    'C07': 'The only definition of the reported point reaching the final evaluation and RawResults is the main optimisation (a bootstrap replication cannot replace it).',
+    'C09': 'A resampled individual map handed to the engine is replaced by the map of the data on every exit; record and operand plumbing of PanelLikelihoodTrajectory.',
+    'C10': 'The registered user generators are exactly those of the last call; leaf tables and records of draws and integration variables.',
+}
+for _pid, _sentence in ADDED.items():
+    _t, _text, _ref = CLAIMED[_pid]
+    if ' Not decided:' in _text:
+        _text = _text.replace(' Not decided:', ' ' + _sentence + ' Not decided:', 1)
+    else:
+        _text = _text + ' ' + _sentence
+    CLAIMED[_pid] = (_t, _text, _ref)
